@@ -922,6 +922,22 @@ def run(ck, facts):
         ck.expect(bool(co) and co <= into_ids, "R8", "js/struct.js.jinja/representation-flags", "%s consulted in both directions" % sorted(co),
                   "`_fromFFI` decides the representation with %s but `_intoFFI` only looks at %s: one direction treats a nested single-primitive struct differently from the other" %
                   (sorted(co), sorted(into_ids)), "tool/templates/js/struct.js.jinja")
+        # ... and the raw scalar `_fromFFI` receives for a single-primitive struct becomes a *field* only in the struct that owns the primitive: a wrapper of a wrapper
+        # hands it on to the inner struct's _fromFFI (the positive form of the ownership flag guards every direct `field = primitiveValue` store)
+        import tmpl as _tm
+        fl_ = _tm.flat_file("js/struct.js.jinja")
+        own_flag = next((f_ for f_ in sorted(bflags) if "owns" in f_), None)
+        k_from = fl_.find("static _fromFFI(")
+        nst = 0
+        for mm in re.finditer(r"structObj\.[^\n=]*=\s*primitiveValue\s*;", fl_[k_from:] if k_from >= 0 else ""):
+            nst += 1
+            gs = [g_ for g_ in _tm.guards_at(fl_, k_from + mm.start()) if g_.startswith("if ") and " / " not in g_]
+            owned = own_flag is not None and any(re.search(r"(?<![!\w])%s\b" % re.escape(own_flag), g_) for g_ in gs)
+            ck.expect(owned, "R8", "js/struct.js.jinja/_fromFFI/raw-scalar-only-into-own-field#%d" % (nst - 1), "guarded by %s" % own_flag,
+                      "`_fromFFI` stores the raw scalar into a field without asking `%s` (guards: %s): for a struct whose single field is another single-primitive struct the field "
+                      "receives a number where the inner struct's constructor expects an object" % (own_flag, gs), "tool/templates/js/struct.js.jinja")
+        if nst < 1:
+            ck.bad("R8", "js/struct.js.jinja/_fromFFI/raw-scalar/floor", "no direct `structObj.<field> = primitiveValue` store found in _fromFFI (1 counted)", "tool/templates/js/struct.js.jinja")
     # the three ForcePaddingStatus decisions stay three different texts wherever they are printed (NoForce: nothing, Force: `true`, PassThrough: the caller's own
     # `forcePadding`): a table that prints two of them alike drops a decision C08.R6 checks the computation of
     nfp = 0
@@ -945,6 +961,20 @@ def run(ck, facts):
                       "vanish from the flattened argument list" % outs, C.loc(f_, m_.get("ln")))
     if nfp < 1:
         ck.bad("R6", "force-padding-texts/floor", "no table printing the three ForcePaddingStatus values found in the JS backend (1 counted)")
+    # top-level arguments of an export (the receiver and each parameter) are flattened alike and never with forced padding: padding is forced only for a
+    # two-scalar struct *nested* in a larger aggregate (the field decision above); receiver and parameters are siblings in one argument list
+    gm = next(iter(tool.fns_matching(r"::js::gen::.*::generate_method$")), None)
+    tops = []
+    # (the sites that name the status outright; the one nested site, generate_fields, passes the status it computed)
+    for g_ in ([gm] + [h for h in tool.fn_list if "::js::" in h["path"] and "hir" in h and h is not gm]) if gm is not None else []:
+        for x in C.walk(C.fn_body(g_)):
+            if x.get("k") == "call" and (C.callee(x) or x.get("p") or "").endswith("JsToCConversionContext::List"):
+                a0 = C.strip(x["a"][0]) if x.get("a") else {}
+                if a0.get("k") == "def" and "ForcePaddingStatus::" in (a0.get("ctor") or a0.get("p") or ""):
+                    tops.append(((a0.get("ctor") or a0.get("p") or "?").split("::")[-1], x.get("ln")))
+    ck.expect(len(tops) >= 2 and {t for t, _ in tops} == {"NoForce"}, "R6", "js::generate_method/top-level-arguments-unforced", "%d top-level List conversions, all NoForce" % len(tops),
+              "generate_method converts its top-level arguments with %s (2 counted: receiver and parameters, both NoForce): a struct receiver / parameter with two scalars is flattened "
+              "with padding slots the export does not take, every later argument shifts" % sorted({t for t, _ in tops}), C.loc(gm) if gm else None)
     js_runtime_call_rules(ck, "R8", facts)
     # an enum-typed field is written as the enum object's ffiValue: the JS enum class indexes by discriminant only for 0..N-1 enums (C11.R2, C11.R1 for js)
     import c11
